@@ -10,7 +10,7 @@ PROOF_FILES = ["C06Parse", "C06Lists", "C06Classes", "C06Color", "C06Entries", "
 THEOREM = ("Ufo2ft.C06.C06_offset / C06_candidate / C06_sound / C06_ligature / C06_complete / C06_holds / C06_error / "
            "groups_no_shared_mark / colorGraph_is_proper / firstAvailable_smallest / C06_parse_shape / C06_parse_mark / "
            "C06_parse_lig / C06_parse_null / C06_candidate_order_partial / C06_offset_general / C06_ctx_offset / C06_ctx_holds / "
-           "C06_frame / C06_plain_lookups_have_no_contextual_anchor / C06_ctx_split / C06_ctx_error / C06_modelX_error / C06_objectLibs_old_counterexample / C06_ctx_skip / C06_ctx_keyError_old_counterexample / C06_classes_injective / C06_collision_old_counterexample")
+           "C06_frame / C06_plain_lookups_have_no_contextual_anchor / C06_ctx_split / C06_ctx_error / C06_modelX_error / C06_objectLibs_old_counterexample / C06_ctx_skip / C06_ctx_keyError_old_counterexample / C06_classes_injective / C06_collision_old_counterexample / C06_complete_general / C06_holds_general / C06_ctx_complete / C06_ctx_complete_holds / C06_ctx_ligature_last_wins_counterexample")
 N = {"quick": 400, "thorough": 12000}
 RULE = ("random 'anchor fonts': 2-10 glyphs in the roles base / ligature / mark / Indic-Khmer base+mark / odd, each with a random "
         "set of named anchors (plain, '_'-prefixed, numbered 'x_N' incl. gaps, key-less '_N', 'top.alt'-style, keys ending in a digit, "
@@ -220,6 +220,16 @@ def _add_contextual(rng, case, keys, search):
             a = rng.choice(an)
             if len(a) == 3:
                 a.append(rng.choice([{"ctx": rng.choice(pool)}, "idonly", "nokey"]))      # object lib on a plain anchor: ignored
+    if rng.random() < 0.08:
+        # two contextual ligature anchors with the same context and key on different components (finding proposal: feaLib keeps
+        # only the last `pos ligature` statement of the glyph in the referenced lookup)
+        ligs = [g for g in glyphs if any(re.fullmatch(r"[A-Za-z][A-Za-z0-9.]*_\d+", a[0] or "") for a in g["anchors"])]
+        if ligs:
+            g = rng.choice(ligs)
+            k_ = rng.choice(keys).split(".")[0]
+            ctx = rng.choice(pool)
+            for num in (1, 2):
+                g["anchors"].append(_anchor(rng, "*%s_%d" % (k_, num)) + [{"ctx": ctx}])
     if rng.random() < 0.3:
         # anchors with an identifier on a glyph WITHOUT "public.objectLibs" (ordinary input since the repair of _getAnchorLists:
         # no lib data; a '*' anchor there is dropped like any contextual anchor without data)
@@ -424,6 +434,8 @@ def run(case):
                     tags.append("contextual:lookupflag-dispatch")
                 if any(t_ for t_ in c["ref"]):
                     nontrivial = True
+        if _ctx_lig_collapse(case):
+            tags.append("proposal:contextual-ligature-anchors-same-context-on-two-components")
         if obs["ctx"]["checked"]:
             tags.append("contextual:compiled-rules-checked-against-text")
         if obs["ctx"]["unparsed"]:
@@ -736,6 +748,28 @@ def _ctx_key_error(case, msg):
     return False
 
 
+def _ctx_lig_collapse(case):
+    """finding PROPOSAL (not listed): two contextual ligature anchors of one glyph with the same GPOS_Context and the same key
+    on DIFFERENT components ('*top_1', '*top_2', both "* x"): _makeMarkFeature makes one `pos ligature G …` statement per
+    anchor (only its own component filled) in ONE referenced lookup, feaLib keeps the last statement of a glyph, so the
+    earlier component loses its contextual attachment (C06_ctx_ligature_last_wins_counterexample)"""
+    out = []
+    for g in case["glyphs"]:
+        seen = {}
+        for a in g["anchors"]:
+            n = a[0] or ""
+            if not (n.startswith("*") and isinstance(_spec(a), dict)):
+                continue
+            stem = n[1:].split(".")[0]
+            m = re.fullmatch(r"(.*)_(\d+)", stem)
+            if not m or not _spec(a)["ctx"].strip():
+                continue
+            k = (m.group(1), _spec(a)["ctx"].strip())
+            seen.setdefault(k, set()).add(int(m.group(2)))
+        out += [(g["name"],) + k for k, nums in seen.items() if len(nums) > 1]
+    return out
+
+
 def _premark_collision(case):
     """a hand-written `markClass … @MC_k` and a mark anchor name '_k2' (k2 != k) with makeFeaClassName("MC_k2") == "MC_k"""
     have = {(g["name"], a[0]) for g in case["glyphs"] for a in g["anchors"]}
@@ -777,6 +811,10 @@ def classify_failure(res):
     # mark class; named from the case - colliding names present - and a failing predicate on a font that compiled)
     if _collision(r["case"]):
         return {"finding": "markclass-name-collision"}
+    # finding proposal (never listed here): the predicate excludes this shape (C06_ctx_complete has the proviso), so a failure
+    # on such a font is named after it only to make a future, stricter predicate report it recognisably
+    if r["obs"].get("err") is None and _ctx_lig_collapse(r["case"]):
+        return {"finding": "contextual-ligature-last-statement-wins"}
     return None
 
 
@@ -825,5 +863,5 @@ LEVEL_NOTE = ("Hypothesis `wf`: glyph names distinct, every glyph in the abvm or
               "feaLib cannot lex in a lookup name breaks mark-to-mark. Not proved: WHICH candidate wins when "
               "several keys match (C06_candidate_order_partial; the property allows any) - tied by correspondence only. Trusted: Lean kernel "
               "+ standard axioms; the correspondence harness and harness/gpos.py; feaLib's compilation of the generated statements; GDEF "
-              "classes / abvm glyph sets / glyph order are inputs. Contextual anchors ('*' + GPOS_Context object-lib data) are modelled (Model/C06Ctx.lean): proved are the soundness of every contextual attachment (C06_ctx_offset), that plain lookups never use a contextual anchor and stay sound in their presence (C06_offset_general), the exact frame without object-lib data (C06_frame) and the error conditions; NOT proved: completeness of the contextual lookups and of the plain lookups when object-lib data is present (correspondence only). The dispatch (chaining) statements are compared as generated feature TEXT; the compiled ChainContextPos rules are checked against that text by the harness (restricted grammar) and the referenced lookups are evaluated in the compiled GPOS. Not modelled: contexts without '*' (feaLib rejects them), append mode and "
+              "classes / abvm glyph sets / glyph order are inputs. Contextual anchors ('*' + GPOS_Context object-lib data) are modelled (Model/C06Ctx.lean): proved are the soundness of every contextual attachment (C06_ctx_offset), that plain lookups never use a contextual anchor and stay sound in their presence (C06_offset_general), the exact frame without object-lib data (C06_frame) and the error conditions; completeness of the contextual lookups (C06_ctx_complete: referenced lookup of the right feature attaches, context dispatched; proviso: no second contextual anchor of the glyph with the same context and key - otherwise false, C06_ctx_ligature_last_wins_counterexample) and of the plain lookups when object-lib data is present (C06_complete_general); both predicates are also evaluated on the observed font. The dispatch (chaining) statements are compared as generated feature TEXT; the compiled ChainContextPos rules are checked against that text by the harness (restricted grammar) and the referenced lookups are evaluated in the compiled GPOS. Not modelled: contexts without '*' (feaLib rejects them), append mode and "
               "variable fonts, GSUB closure of abvm glyphs. Hand-written markClass definitions are modelled (compared exactly) but outside `wf`: the theorems assume the feature file defines none.")
